@@ -302,6 +302,9 @@ def progressBar(iteration, total, prefix = '', suffix = '', decimals = 1, length
         est_complete = (current-ETA)/(iteration+1)*(total-iteration)+current
         est_complete_str = datetime.datetime.fromtimestamp(est_complete).strftime('ETA: %Y-%m-%d %I:%M:%S%p')
         suffix = est_complete_str
+    if total == 0:
+        # A job with nothing left to count (e.g. a one-iteration loop) is complete
+        iteration, total = 1, 1
     percent = ("{0:." + str(decimals) + "f}").format(100*(iteration / float(total)))
     filledLength = int(length * iteration // total)
     bar = fill * filledLength + '-' * (length - filledLength)
